@@ -442,6 +442,15 @@ def r4_index_parsing(R) -> None:
                 whole = len(vals) == 1 and vals[0][1] is not None and text(vals[0][1]) in ("groupdict['INDEX']", "match.group('INDEX')", "match['INDEX']")
             R.check(whole, q, 'int-of-whole-group:' + text(n.ast.value), 'the numeric index is int() of the whole INDEX group',
                     f'`{text(n.ast.value)}` does not convert the whole INDEX group', where=f.where(n))
+    # the only rejection of a numeric index is int()'s own ValueError: anything int() accepts ([+1], [ -2 ]) is an index
+    for r in f.raises('ParserError'):
+        par_ok = False
+        for h in [n for n in f.cfg.nodes if n.kind == 'except']:
+            if any(x is r.ast for x in ast.walk(h.ast)) and h.ast.type is not None and text(h.ast.type) == 'ValueError':
+                par_ok = True
+        R.check(par_ok, q, 'index-rejection:' + stmt_key(r.ast)[:50], 'an index is rejected only when int() rejects it',
+                f'`{text(r.ast)[:60]}` rejects an index outside the `except ValueError` of int(): indexes that int() accepts (e.g. an explicit `+1`, as used when a '
+                f'normalised equation is fed back) would be refused', where=f.where(r))
     # regex: optional index group right after the variable-like alternatives
     t = folder(R.repo, P).get('term_re')
     parsed = rx.parse(t.pattern, t.flags)
